@@ -302,8 +302,20 @@ def _run_shard(args):
     except Inconclusive as e:
         st["harness_error"] = str(e)
     except BaseException as e:  # health check failures, hypothesis errors
-        st["harness_error"] = "%s: %s\n%s" % (type(e).__name__, e,
-                                               traceback.format_exc()[-1500:])
+        if type(e).__name__ in ("FlakyFailure", "Flaky") and last_fail.get("case") is not None:
+            # Hypothesis executed the failing case again and it passed: the assertion DID fail
+            # on the real code once, with every random state set from the case -- the code under
+            # test does not behave the same on identical calls.  That is reported as what it
+            # is, a violation that was observed (its replay may pass).
+            case = last_fail["case"]
+            st["failure"] = {"case": json.loads(canon(case)),
+                             "message": last_fail["msg"] + "  [observed once: the same case "
+                             "passed when it was executed again, i.e. identical calls of the "
+                             "code under test gave different results]",
+                             "trace": last_fail.get("trace")}
+        else:
+            st["harness_error"] = "%s: %s\n%s" % (type(e).__name__, e,
+                                                   traceback.format_exc()[-1500:])
     st["wall_s"] = time.time() - t0
     st["nontrivial"] = sorted(st["nontrivial"])
     st["labels"] = dict(st["labels"])
